@@ -8,6 +8,8 @@ package main
 
 import (
 	"fmt"
+	"sync"
+	"time"
 
 	"github.com/kelindar/column"
 	"github.com/kelindar/column/commit"
@@ -24,7 +26,7 @@ var probesByProp = map[string][]probe{
 	"C03": {{"varlen-merge-then-put/index", probeVarlen}},
 	"C16": {{"varlen-merge-then-put/sorted", probeVarlen}},
 	"C19": {{"varlen-merge-then-put/trigger", probeVarlen}},
-	"C06": {{"varlen-merge-then-put/replica", probeVarlen}},
+	"C06": {{"varlen-merge-then-put/replica", probeVarlen}, {"key-delete-beside-rekey-in-another-block/replica", probeKeyDeleteRekey}},
 	"C11": {{"write-then-delete-orphan", probeWriteThenDelete}},
 	"C12": {{"two-creating-ops-one-key", probeKeyTwice}},
 }
@@ -216,5 +218,106 @@ func probeKeyTwice(w *W, idx int, prop string) {
 				"KF-KEY-CHECK-THEN-ACT", map[string]any{"phase": 1, "idx": idx})
 		}
 		wd.Close()
+	}
+}
+
+// probeKeyDeleteRekey: writer A deletes the row holding key "K" (block 0) and updates another row
+// of block 0 in the same transaction; while A's commit is between its row-marker pass (key "K"
+// already removed from the lookup table) and its append to the stream, writer B gives the
+// now-free key "K" to a row of block 1 and commits. B touches block 1 only, so nothing orders it
+// behind A: its commit reaches the stream first. A replica replaying "B, then A" must still
+// resolve "K" to B's row, as the primary does. The schedule is forced at the lock-free hook
+// point commit.betweenColumns (A holds the latch of block 0 only).
+func probeKeyDeleteRekey(w *W, idx int, prop string) {
+	lg := &recLogger{}
+	mk := func(wr commit.Logger) *column.Collection {
+		o := column.Options{Capacity: 64, Vacuum: 1 << 40}
+		if wr != nil {
+			o.Writer = wr
+		}
+		c := column.NewCollection(o)
+		c.CreateColumn("k", column.ForKey())
+		c.CreateColumn("v", column.ForInt64())
+		return c
+	}
+	P, R := mk(lg), mk(nil)
+	defer P.Close()
+	defer R.Close()
+	for i, k := range []string{"K", "L"} {
+		v := int64(i + 1)
+		if err := P.InsertKey(k, func(r column.Row) error { r.SetInt64("v", v); return nil }); err != nil {
+			panic(err)
+		}
+	}
+	const rowJ = 16384 + 5
+	for _, c := range []*column.Collection{P, R} {
+		mkb := func(name string) *commit.Buffer { b := commit.NewBuffer(64); b.Reset(name); return b }
+		rb, kb, vb := mkb("row"), mkb("k"), mkb("v")
+		rb.PutOperation(commit.Insert, rowJ)
+		kb.PutString(commit.Put, rowJ, "J")
+		vb.PutInt64(commit.Put, rowJ, 9)
+		if err := c.Replay(commit.Commit{ID: 1, Chunk: 1, Updates: []*commit.Buffer{rb, kb, vb}}); err != nil {
+			panic(err)
+		}
+	}
+	feed := func() {
+		for _, cm := range lg.take() {
+			if err := R.Replay(cm); err != nil {
+				panic(err)
+			}
+		}
+	}
+	feed()
+	parked, resume := make(chan struct{}), make(chan struct{})
+	var once sync.Once
+	hook := func(point string, c *column.Collection, chunk uint32) {
+		if c == P && point == "commit.betweenColumns" && chunk == 0 {
+			once.Do(func() {
+				close(parked)
+				select {
+				case <-resume:
+				case <-time.After(20 * time.Second):
+				}
+			})
+		}
+	}
+	column.VerifHook.Store(&hook)
+	defer column.VerifHook.Store(nil)
+	doneA := make(chan error, 1)
+	go func() {
+		doneA <- P.Query(func(txn *column.Txn) error {
+			if err := txn.DeleteKey("K"); err != nil {
+				return err
+			}
+			return txn.QueryKey("L", func(r column.Row) error { r.SetInt64("v", 3); return nil })
+		})
+	}()
+	select {
+	case <-parked:
+	case <-time.After(20 * time.Second):
+		w.Inconclusive("probe:key-delete-rekey", "writer A never reached commit.betweenColumns on block 0")
+		close(resume)
+		<-doneA
+		return
+	}
+	var errB error
+	P.Query(func(txn *column.Txn) error {
+		return txn.QueryAt(rowJ, func(r column.Row) error { errB = txn.Key().Set("K"); return nil })
+	})
+	close(resume)
+	if err := <-doneA; err != nil {
+		panic(err)
+	}
+	column.VerifHook.Store(nil)
+	feed()
+	sv := schemaView{Cols: []ColSpec{{"k", KKey}, {"v", KInt64}}, KeyCol: "k", Keys: []string{"K", "L", "J"}}
+	stP, stR := dumpState(P, sv), dumpState(R, sv)
+	w.Stat("forced_cross_block_key_schedules", 1)
+	if errB != nil {
+		return // B found the key still present: the schedule did not produce the situation
+	}
+	if d := cmpStates(stP, stR, "primary", "replica", sv); d != "" {
+		w.Violate(idx, "probe:key-delete-rekey", "A: txn{DeleteKey(\"K\") (row 0, block 0); QueryKey(\"L\") v=3}, parked after its row-marker pass; B: txn{at(block-1 row) SetKey(\"K\")} commits and reaches the stream first; A resumes. Stream replayed in emission order: "+d,
+			"", map[string]any{"phase": 1, "idx": idx})
 	}
 }
